@@ -209,11 +209,17 @@ def run(R):
                     arm_of[names.get(v, v)] = t_
         exits = {}
         for nm, t_ in arm_of.items():
-            region = sc.reachable(t_, removed={ob})
-            loops_back = ob in sc.reachable(t_)
-            reaches_ret = any(rb in sc.reachable(t_, removed={ob}) for rb in sc.return_blocks())
+            # path-sensitively: an arm that only names the event (`=> Event::X`) is followed into the matching arm of the `match` that acts on it
+            region = sc.reach_ps([t_], removed={ob})
+            loops_back = ob in sc.reach_ps([t_])
+            reaches_ret = any(rb in region for rb in sc.return_blocks())
             has_gs = any(bb in region and not (bb in sc.reachable(arm_of[o2], removed={ob}) if False else False) for bb, t in gs for o2 in [nm])
-            exits[nm] = (reaches_ret, loops_back, [bb for bb, t in gs if bb in region and sc.dominates(t_, bb)])
+            exits[nm] = (reaches_ret, loops_back, region)
+        # a graceful_shutdown site belongs to an arm when only that arm's (path-sensitive) region contains it
+        regions_ = {nm: exits[nm][2] for nm in exits}
+        for nm in list(exits):
+            rr_, lb_, reg_ = exits[nm]
+            exits[nm] = (rr_, lb_, [bb for bb, t in gs if bb in reg_ and not any(bb in regions_[o2] for o2 in regions_ if o2 != nm)])
         # arm _0 is `rv = &mut conn`
         order = sorted(k for k in exits if re.match(r'_\d+$', str(k)))
         R.check(len(order) == 3, 'C13.R4', 'three-select-arms', site(sc, ob), 'select! arms: %r' % order)
